@@ -108,6 +108,9 @@ def main(argv=None):
         shutil.rmtree(tmp, ignore_errors=True)
 
 
+LINES = set()
+
+
 def _run(mod, cid, tier, seed, root, tmp, opts, t0):
     params = {}
     nshards = mod.SHARDS[tier]
@@ -162,6 +165,8 @@ def _run(mod, cid, tier, seed, root, tmp, opts, t0):
         for k, v in (r.get('violation_counts') or {}).items():
             vcounts[k] = vcounts.get(k, 0) + v
         reached.update(r.get('reached') or [])
+        for fl in (r.get('lines') or []):
+            LINES.add(tuple(fl))
 
     known = load_known(cid)
     known_keys = {e['key']: e for e in known if e.get('status') == 'known'}
@@ -218,6 +223,10 @@ def _run(mod, cid, tier, seed, root, tmp, opts, t0):
     wall = time.time() - t0
     anchors = getattr(mod, 'ANCHORS', [])
     anchors_reached = {a: (a in reached) for a in anchors}
+    if LINES:
+        os.makedirs(os.path.join(HERE, 'replays'), exist_ok=True)
+        with open(os.path.join(HERE, 'replays', 'linecov-%s-%s.json' % (cid, tier)), 'w') as f:
+            json.dump(sorted(LINES), f)
     evidence = dict(
         property_id=cid, tier=tier, seed=seed, level='exploration',
         coverage=dict(
